@@ -131,21 +131,24 @@ def rule_final_block(ctx, cfg, r, r_full=None, r_one_final=None):
         facts_ok.append(("in_left==0", inl))
         return facts_ok
     def legit_skip(row):
-        """why a row that ran a compress routine may return without the final flush_block"""
+        """why a row that ran a compress routine may return without the final flush_block (decided on value sets, so the spelling of
+        the tests — `x != 0`, `!(x == 0)`, a local holding the conjunction — does not matter)"""
         fl = vs(row, t["flush"])
         if fl.single() == TF["None"]:
             return "flush == None"
         for a, s in row.atoms:
             if a[0] == "call" and any(paths._sfx(a[1], q) for q in COMPRESS_ROUTINES) and s.single() == 0:
                 return "the compress routine reported failure / suspension"
-            if a[0] == "bin" and a[1] == "Eq" and is_const(a[3]) and const_val(a[3]) == 0 and paths.is_load_of(a[2], "lookahead_size", "DictOxide") and \
-                    a[2][2] != 0 and s.single() == 0:
+        for x in loads_of(row, "lookahead_size", "DictOxide"):
+            if x[2] != 0 and not vs(row, x).contains(0):
                 return "lookahead not empty"
-            if a[0] == "bin" and a[1] == "Ne" and is_const(a[3]) and const_val(a[3]) == 0 and s.single() == 1:
-                if paths.is_load_of(a[2], "flush_remaining", "ParamsOxide") and a[2][2] != 0:
-                    return "output pending"
-                st = a[2]
-                if st[0] == "bin" and st[1] == "Sub" and st[2][0] == "call" and st[2][1].endswith("map_or") and paths.is_load_of(st[3], "src_pos", "ParamsOxide"):
+        for x in loads_of(row, "flush_remaining", "ParamsOxide"):
+            if x[2] != 0 and not vs(row, x).contains(0):
+                return "output pending"
+        for a, s in row.atoms:
+            for st in paths.subterms(a):
+                if st and st[0] == "bin" and st[1] == "Sub" and st[2][0] == "call" and st[2][1].endswith("map_or") and \
+                        paths.is_load_of(st[3], "src_pos", "ParamsOxide") and not vs(row, st).contains(0):
                     return "input left"
         return None
     n_fb = 0
@@ -504,6 +507,25 @@ def rule_window_accounting(ctx, cfg, r):
                     if any(isinstance(o, dict) and (o.get("c") or o.get("m")) is not None and is_size(o.get("c") or o.get("m")) for o in ops) and \
                             any(isinstance(o, dict) and "k" in o and o["k"].get("int") in (0, "0") for o in ops):
                         uses.append((bb, i, "dict.size != 0 (run-length look-back)", s.get("sp")))
+                if "a" in s and "bin" in s["a"][1] and s["a"][1]["bin"][0] in ("Le", "Lt", "Ge", "Gt"):
+                    # a distance compared directly against dict.size (`dist <= d.dict.size`)
+                    ops = s["a"][1]["bin"][1:3]
+                    def reads_size(o):
+                        pl = o.get("c") or o.get("m") if isinstance(o, dict) else None
+                        if pl is None:
+                            return False
+                        if is_size(pl):
+                            return True
+                        if not pl["p"]:
+                            ds = f.defs().get(pl["l"], [])
+                            if len(ds) == 1 and ds[0][1] != "t":
+                                rv = f.blocks[ds[0][0]]["s"][ds[0][1]]["a"][1]
+                                if "use" in rv:
+                                    q = rv["use"].get("c") or rv["use"].get("m")
+                                    return q is not None and is_size(q)
+                        return False
+                    if any(reads_size(o) for o in ops):
+                        uses.append((bb, i, "distance compared against dict.size", s.get("sp")))
             t = blk["t"]
             if "call" in t and callee_name(t["call"]).endswith("cmp::min"):
                 args = [local_expr(c, f, bb, a) for a in t["args"]]
